@@ -240,6 +240,36 @@ func variadic(xs ...int) (n int, err error) {
 	return n, nil
 }
 
+// an embedded dot-imported type (the identifier both declares a field and uses a type)
+func wrapped() string {
+	type W struct{ Greeter }
+	w := W{}
+	w.Name = "w"
+	return w.Greet()
+}
+
+// a type switch whose symbolic variable is named like an import of the generated file: the variable has no object,
+// each clause declares its own
+func tswitch(v interface{}) string {
+	switch bar := v.(type) {
+	case string:
+		return bar + "/" + Itoa(Port(baz.Base()))
+	case int, int64:
+		_ = bar
+		return "n"
+	case uint:
+		return Itoa(Port(int(bar) + baz.Base()))
+	}
+	return ""
+}
+
+// a local type named like an import of the generated file, embedded
+func embedded() int {
+	type bar struct{ n int }
+	type T struct{ bar }
+	return T{bar{2}}.n + baz.Base()
+}
+
 func (p Pair) Method() string { return p.B }
 
 // a method that happens to carry the injector's name
@@ -295,6 +325,9 @@ func Check() string {
 	}
 	if n, _ := variadic(1, 2, 3); n != 6 {
 		return "variadic differs"
+	}
+	if wrapped() != "hi w" || tswitch("q") != "q/10" || tswitch(uint(5)) != "15" || tswitch(7) != "n" || embedded() != 12 {
+		return "embedded type names / type-switch variables differ"
 	}
 	if (Pair{B: "y"}).InitA() != "method:y" {
 		return "method named like the injector differs"
